@@ -40,7 +40,7 @@ ASSUMPTIONS = [
 REACH = {
     t: ["delivery", "nak", "cancel_discard", "sub_discard_ended", "xonxoff_inside_escape",
         "dangling_esc", "invalid_escape", "chunk_boundary_inside_escape", "reject_crc",
-        "garbage_8MiB", "garbage_recovered", "reset_up", "all_chunkings"]
+        "garbage_8MiB", "garbage_recovered", "overlong_run_ended_by_cancel", "overlong_run_ended_by_substitute", "reset_up", "all_chunkings"]
     for t in ("quick", "thorough")
 }
 SHARD_TIMEOUT = {"quick": 600, "thorough": 3000}
@@ -363,6 +363,29 @@ def part_mem(desc) -> Acc:
                 acc.violation("C02/memory/no-recovery", f"after garbage + FLAG a valid frame was not delivered: {dec!r}", case)
             else:
                 acc.hit("garbage_recovered")
+            # the over-long run may also be ended by the two other bytes that end a frame in progress:
+            # CANCEL (what was collected is dropped) and SUBSTITUTE (everything up to the next FLAG is
+            # dropped).  The valid frame that follows is a frame of its own in both cases.
+            frm = 1
+            for tname, term in (("cancel", bytes([R.CAN])), ("substitute", bytes([R.SUB]) + b"\x41\x42\x43" + bytes([R.FLAG])),
+                                ("flag", bytes([R.FLAG])), ("cancel", bytes([R.CAN]))):
+                for extra in (2 * bound + 50, 100):
+                    noise = gen(extra)
+                    step = min(max(chunk, 1), 1000)
+                    for o in range(0, len(noise), step):
+                        proto.data_received(noise[o:o + step])
+                    mark = len(log)
+                    pl = b"after-%s-%d" % (tname.encode(), extra)
+                    proto.data_received(term + R.encode_data(frm, 0, 0, pl))
+                    dec = decode_writes(log[mark:])
+                    acc.case()
+                    if ("up_data", pl) not in dec:
+                        acc.violation("C02/memory/no-recovery-after-" + tname,
+                                      f"{extra} bytes of {kname} garbage ended by {tname}, then a valid DATA frame {frm}: not delivered "
+                                      f"({dec!r})", dict(case, terminator=tname, noise=extra))
+                        break
+                    acc.hit("overlong_run_ended_by_" + tname)
+                    frm = (frm + 1) % 8
             acc.nontrivial(("mem", kname, chunk))
             acc.sample({"kind": "garbage", "pattern": kname, "chunk": chunk, "bytes_fed": fed,
                         "max_buffer": worst_buf, "max_traced_growth": worst_mem}, limit=4)
